@@ -21,7 +21,7 @@ RULE = (
 )
 ASSUMPTIONS = ["model.predict on all points is the reference for the per-design prediction (C15 judges predict itself)",
                "tolerance 1e-9 relative"]
-N = {"quick": 50, "thorough": 1500}
+N = {"quick": 50, "thorough": 6000}
 REQUIRE = {"quick": {"updated_checked": 3000, "untouched_checked": 3000, "single_design_updates": 150,
                      "intersect_checked": 500, "gp_updates": 60, "single_design_gp_updates": 20,
                      "invariant_evals": 5000, "adaptive_updates": 50, "direct_intersect_events": 500, "inrun_runs": 20}}
